@@ -425,6 +425,20 @@ func PoolConcurrent(pw *poolWriter, seed int64, ty string, ch, l, k, G, M, procs
 		go func(g int) {
 			defer wg.Done()
 			rng := rand.New(rand.NewSource(seed*1000 + int64(g)))
+			var cur View
+			defer func() { // a panic of the library inside a concurrent phase is an observation, not a crash of the recorder
+				if r := recover(); r != nil {
+					if hb, ok := r.(harnessBug); ok {
+						panic("harness bug: " + string(hb))
+					}
+					t := atomic.AddInt64(&ticket, 1)
+					e := &PEvent{Op: "Use", G: g + 1, T: t, Kind: "Crash", Res: "panic", Allocs: -1}
+					if cur != nil {
+						e.ptr = cur.Raw()
+					}
+					logs[g] = append(logs[g], e)
+				}
+			}()
 			byValue := g%2 == 0 && !poolPairs
 			pool := pool
 			if g%4 == 0 && !poolPairs {
